@@ -23,6 +23,17 @@ func VerifDir() string {
 	return "/verif"
 }
 
+// BinDir is where the vcheck-<variant> binaries live.
+func BinDir() string {
+	if d := os.Getenv("VERIF_BIN"); d != "" {
+		if filepath.IsAbs(d) {
+			return d
+		}
+		return filepath.Join(VerifDir(), d)
+	}
+	return filepath.Join(VerifDir(), ".bin")
+}
+
 type knownFinding struct {
 	Property string `json:"property"`
 	ID       string `json:"id"`
@@ -115,7 +126,7 @@ func RunDriver(propID, tier string, seed uint64, only *Violation) int {
 			continue
 		}
 		ls := legSummary{Name: leg.Name, Variant: leg.Variant, Batches: leg.Batches}
-		bin := filepath.Join(vdir, ".bin", "vcheck-"+leg.Variant)
+		bin := filepath.Join(BinDir(), "vcheck-"+leg.Variant)
 		if _, err := os.Stat(bin); err != nil {
 			fmt.Fprintf(os.Stderr, "missing binary %s (run tools/build.sh)\n", bin)
 			return 2
